@@ -17,8 +17,10 @@ reg(Prop(
          'points of the operands (random3-wide; 4000 / 200000 per type). evaluations counts judged '
          'library calls; a case for the distinct count is a (type,N,box) for points/resize, an ordered pair of non-empty boxes '
          'for pairs, a (a,b,v) triple for random3.'
-         ' Instantiation with a heap-backed scalar whose move is not a copy (vf::heavy: a moved-from operand reads as 7777). Floating point boxes over coordinates for which x + (y - x) != y: intersection / extend_bounding_box must select corner coordinates exactly, contains / contains_point / intersects are comparisons.',
+         ' Instantiation with a heap-backed scalar whose move is not a copy (vf::heavy: a moved-from operand reads as 7777). Floating point boxes over coordinates for which x + (y - x) != y: intersection / extend_bounding_box must select corner coordinates exactly, contains / contains_point / intersects are comparisons.'
+         ' Instantiation with vf::natural, an exact scalar without negative values (negation and subtraction below zero saturate and are counted).',
     assumptions=COMMON_ASSUMPTIONS + [
+        'vf::natural: only calls whose exact result is a natural number are judged (the unsigned side conditions); intermediate results below zero are counted, not judged',
         'side conditions taken from the statement: intersects and extend_bounding_box are judged only for two non-empty boxes, '
         'contains only for a non-empty inner box, "intersection is the null box" only for two non-empty boxes without a common '
         'point; with empty operands only point-set equality of intersection is judged and the other calls are executed and counted',
